@@ -71,7 +71,15 @@ var c18Scenarios = []c18Scenario{
 	{name: "max-samemsg-2", n: 2, same: true, query: `max(count_over_time({}[4s])) by (container, msg)`, params: c18Range()},
 	// one series is NaN: whatever max/min make of it, they make the same of it in every arrival order
 	{name: "max-nan-3", n: 3, msg: c18NaNMsg, query: `max(sum_over_time({} | logfmt | drop msg | unwrap v [4s]))`, params: c18Range()},
+	// two (three) labels extracted from the same JSON path, and from a path and its parent
+	{name: "json-same-path-2", n: 2, msg: c18JSONMsg, query: `{} | json a="req", b="req", c="req.id", d="req.id" | drop msg`, params: c18Log()},
+	{name: "json-same-path-count-2", n: 2, msg: c18JSONMsg, query: `sum by (a, b, c) (count_over_time({} | json a="code", b="code", c="req.path" [4s]))`, params: c18Range()},
 	{name: "min-nan-3", n: 3, msg: c18NaNMsg, query: `min(sum_over_time({} | logfmt | drop msg | unwrap v [4s]))`, params: c18Range()},
+}
+
+// c18JSONMsg: JSON lines for path expressions; several labels may point at the same object.
+func c18JSONMsg(i, j int) string {
+	return fmt.Sprintf(`{"req":{"id":%d,"path":"/p%d"},"code":%d}`, i*10+j, j, 200+i)
 }
 
 func c18NaNMsg(i, j int) string {
